@@ -235,6 +235,12 @@ fn run_batch(w: &World, mode: Mode, pats: &[String]) -> Result<Vec<BTreeSet<usiz
     if out.code != Ok(0) {
         return Err(("non-zero status or panic".into(), out, argv));
     }
+    if (pats[0].len() * 31 + pats.len() + pats[pats.len() - 1].len() * 7) % 41 == 0 {
+        match crate::findrun::cross_check_bin(&args, &out) {
+            Ok(()) => XOK.with(|x| x.set(x.get() + 1)),
+            Err(e) => return Err((format!("MACHINERY {e}"), out, argv)),
+        }
+    }
     let inos = if mode.dir() == "L" { &w.l_ino } else { &w.n_ino };
     let mut sel: Vec<BTreeSet<usize>> = vec![BTreeSet::new(); pats.len()];
     let text = String::from_utf8_lossy(&out.out).to_string();
@@ -253,9 +259,17 @@ fn run_batch(w: &World, mode: Mode, pats: &[String]) -> Result<Vec<BTreeSet<usiz
     Ok(sel)
 }
 
+thread_local! {
+    static XOK: std::cell::Cell<u64> = const { std::cell::Cell::new(0) };
+}
+
 fn judge_batch(ctx: &mut Ctx, w: &World, mode: Mode, pats: &[String]) {
     let sel = match run_batch(w, mode, pats) {
         Ok(s) => s,
+        Err((why, _, _)) if why.starts_with("MACHINERY ") => {
+            ctx.rep.machinery(why);
+            return;
+        }
         Err((why, out, argv)) => {
             if pats.len() > 1 {
                 for p in pats {
@@ -363,11 +377,16 @@ fn run(ctx: &mut Ctx) {
             ctx.progress(job);
             ctx.progress_note(&format!("{} {:?}", mode.prim(), &batch[0]));
             judge_batch(ctx, w, mode, batch);
+            ctx.rep.traces_validated += xok_take();
             if job % 2003 == 5 {
                 ctx.rep.sample(json!({"primary": mode.prim(), "patterns": batch.iter().take(8).collect::<Vec<_>>(), "subjects": w.l_subj.iter().skip(40).step_by(211).take(6).map(|s| show(s)).collect::<Vec<_>>()}));
             }
         }
     }
+}
+
+fn xok_take() -> u64 {
+    XOK.with(|x| x.replace(0))
 }
 
 fn replay(case: &Value, ctx: &mut Ctx) -> Option<String> {
